@@ -129,7 +129,10 @@ impl HeaderPrefix {
         max_table_size: usize,
     ) -> Result<(usize, usize), ParseError> {
         if max_table_size == 0 {
-            return Ok((0, 0));
+            // The table cannot hold any entry, so a conformant encoder can only send an encoded
+            // Required Insert Count of 0 (RFC 9204 section 4.5.1.1). Anything else is reported as
+            // required: no insertion will ever satisfy it and the callers refuse the block.
+            return Ok((self.encoded_insert_count, 0));
         }
 
         // 4.5.1.1. Required Insert Count
